@@ -13,7 +13,18 @@ import Proofs.UndoFit
 import Proofs.MarkupSuccess
 import Proofs.HistoryUndo
 import Proofs.MarkHistory
+import Proofs.InvertOk
+import Proofs.InvertOkAround
+import Proofs.OpHistory
+import Proofs.UndoStructure
+import Proofs.OpGuardSplit
+import Proofs.OpGuardWrap
+import Proofs.OpGuardLift
+import Proofs.OpGuardSetBlock
+import Proofs.OpGuardB
 import Props.C01
+import Props.C12
+import Props.C11
 namespace PM.C04
 open PM
 
@@ -1000,6 +1011,38 @@ private theorem attrsOk_compute {S : Schema} {n : Node} (h : attrsOk S n = true)
     | error e => simp [hc] at h1
     | ok a' => simp [hc] at h1; rw [h1]
 
+/-- the value `AttrStep.invert` / `DocAttrStep.invert` read (`attrs.get(name)`, `None` = `"null"` for an
+    attribute the node does not carry), and what setting it again does to a canonically built list -/
+theorem invert_attr_value (ds : List AttrDecl) (a : Attrs) (name value : String)
+    (hcomp : computeAttrs ds a = .ok a) :
+    ∃ v, (match a.find? (·.1 == name) with | some (_, v) => v | none => "null") = v ∧
+      ∀ a1, computeAttrs ds (a.filter (·.1 != name) ++ [(name, value)]) = .ok a1 →
+        computeAttrs ds (a1.filter (·.1 != name) ++ [(name, v)]) = .ok a := by
+  cases hf : a.find? (·.1 == name) with
+  | none =>
+    exact ⟨"null", rfl, fun a1 h => computeAttrs_undo_none ds a a1 name value "null" hcomp (by simp [lk, hf]) h⟩
+  | some q =>
+    obtain ⟨nm, v⟩ := q
+    exact ⟨v, rfl, fun a1 h => computeAttrs_undo ds a a1 name value v hcomp (by simp [lk, hf]) h⟩
+
+/-- the inverse of an attribute step, as a value -/
+theorem invert_attr_eq (S : Schema) (doc n : Node) (pos : Nat) (name value : String)
+    (hn1 : doc.nodeAt pos = .ok (some n)) :
+    S.invert (.attr pos name value) doc =
+      .ok (.attr pos name (match n.attrs.find? (·.1 == name) with | some (_, v) => v | none => "null")) := by
+  simp only [Schema.invert, hn1]
+  cases hf : n.attrs.find? (·.1 == name) with
+  | none => rfl
+  | some q => obtain ⟨nm, v⟩ := q; rfl
+
+theorem invert_docAttr_eq (S : Schema) (doc : Node) (name value : String) :
+    S.invert (.docAttr name value) doc =
+      .ok (.docAttr name (match doc.attrs.find? (·.1 == name) with | some (_, v) => v | none => "null")) := by
+  simp only [Schema.invert]
+  cases hf : doc.attrs.find? (·.1 == name) with
+  | none => rfl
+  | some q => obtain ⟨nm, v⟩ := q; rfl
+
 /-- what the hypotheses on the document give for the addressed node -/
 private theorem node_facts (S : Schema) (doc n : Node) (pos : Nat)
     (hv : S.checkNode doc = true) (ha : attrsOk S doc = true)
@@ -1019,22 +1062,19 @@ theorem attr_undo_partial (S : Schema) (doc doc' doc'' : Node) (pos : Nat) (name
   obtain ⟨n, u1, hn1, hu1, hr1⟩ := apply_attr_parts S doc doc' pos name value h1
   have hnt := (recreate_spec S n u1 _ _ hu1).1
   obtain ⟨hcan, hcomp⟩ := node_facts S doc n pos hv ha hn1 hnt
-  simp only [Schema.invert, hn1] at hi
-  cases hf : n.attrs.find? (·.1 == name) with
-  | none => simp [hf] at hi
-  | some q =>
-    obtain ⟨nm, v⟩ := q
-    simp only [hf, Except.ok.injEq] at hi
-    subst hi
-    have hlk : lk n.attrs name = some v := by simp [lk, hf]
-    obtain ⟨n2, u2, hn2, hu2, hr2⟩ := apply_attr_parts S doc' doc'' pos name v h2
-    refine node_undo S doc doc' doc'' n n2 u1 u2 pos _ _ _ _ hn hn1 hu1 hr1 hn2 hu2 hr2 ?_
-    intro a1 a2 hc1 hat2 hmk2 hc2
-    rw [hat2] at hc2
-    rw [hmk2, setFrom_idem_of_canonical S n.marks hcan]
-    have := computeAttrs_undo _ n.attrs a1 name value v hcomp hlk hc1
-    rw [this] at hc2
-    exact ⟨(Except.ok.inj hc2).symm, setFrom_idem_of_canonical S n.marks hcan⟩
+  rw [invert_attr_eq S doc n pos name value hn1] at hi
+  obtain ⟨v, hv', hund⟩ := invert_attr_value _ n.attrs name value hcomp
+  rw [hv'] at hi
+  simp only [Except.ok.injEq] at hi
+  subst hi
+  obtain ⟨n2, u2, hn2, hu2, hr2⟩ := apply_attr_parts S doc' doc'' pos name v h2
+  refine node_undo S doc doc' doc'' n n2 u1 u2 pos _ _ _ _ hn hn1 hu1 hr1 hn2 hu2 hr2 ?_
+  intro a1 a2 hc1 hat2 hmk2 hc2
+  rw [hat2] at hc2
+  rw [hmk2, setFrom_idem_of_canonical S n.marks hcan]
+  have := hund a1 hc1
+  rw [this] at hc2
+  exact ⟨(Except.ok.inj hc2).symm, setFrom_idem_of_canonical S n.marks hcan⟩
 
 -- STATEMENT CHANGED: two hypotheses added (`hty`, `hsym`); as originally stated the theorem is false
 -- in the model (and upstream).  Counterexamples (checked with `#eval`, all other hypotheses hold; one
@@ -1160,18 +1200,17 @@ theorem docAttr_undo (S : Schema) (t : TypeId) (a : Attrs) (m : Marks) (kids : L
   | ok a1 =>
     simp only [hc1, Except.map, Except.ok.injEq] at h1
     subst h1
-    simp only [Schema.invert, Node.attrs] at hi
-    cases hf : a.find? (·.1 == name) with
-    | none => simp [hf] at hi
-    | some q =>
-      obtain ⟨nm, v⟩ := q
-      simp only [hf, Except.ok.injEq] at hi
-      subst hi
-      have hlk : lk a name = some v := by simp [lk, hf]
-      have := computeAttrs_undo _ a a1 name value v ha hlk hc1
-      refine ⟨.elem t a (setFrom (setFrom m)) kids, ?_, rfl, ?_⟩
-      · simp only [Schema.apply, this, Except.map]
-      · simp only [Node.marks, hm]
+    rw [invert_docAttr_eq] at hi
+    simp only [Node.attrs] at hi
+    obtain ⟨v, hv', hund⟩ := invert_attr_value _ a name value ha
+    rw [hv'] at hi
+    simp only [Except.ok.injEq] at hi
+    subst hi
+    have _ := hdecl
+    have := hund a1 hc1
+    refine ⟨.elem t a (setFrom (setFrom m)) kids, ?_, rfl, ?_⟩
+    · simp only [Schema.apply, this, Except.map]
+    · simp only [Node.marks, hm]
 
 -- STATEMENT CHANGED: the first conjunct got the extra premise `∀ o ∈ ms, o.ty = m.ty → o = m`
 -- (no other mark of `m`'s type in the set).  Counterexample to the original (`#eval`): mark types
@@ -1282,18 +1321,15 @@ theorem attr_undo (S : Schema) (doc doc' : Node) (pos : Nat) (name value : Strin
   simp only [Node.kids] at hn
   obtain ⟨rfl, hv', hn', hat2, _, hnt2, a1, hca1, e1, e2, e3⟩ :=
     after_nodeStep S ty a m K doc' n u1 pos _ _ hn hv hn1 hcan hu1 hr1
-  simp only [Schema.invert, hn1] at hi
-  cases hf : n.attrs.find? (·.1 == name) with
-  | none => simp [hf] at hi
-  | some q =>
-    obtain ⟨nm, v⟩ := q
-    simp only [hf, Except.ok.injEq] at hi
-    subst hi
-    have hlk : lk n.attrs name = some v := by simp [lk, hf]
-    have hc2 := computeAttrs_undo _ n.attrs a1 name value v hcomp hlk hca1
-    rw [← e1, ← e2] at hc2
-    obtain ⟨u2, hu2⟩ := recreate_total S (u1.withKids n.kids) _ _ (u1.withKids n.kids).marks hnt2 hc2
-    exact ⟨_, attrStep_applies S ty a m _ pos name v _ u2 hv' hn' hat2 hu2⟩
+  rw [invert_attr_eq S _ n pos name value hn1] at hi
+  obtain ⟨v, hvv, hund⟩ := invert_attr_value _ n.attrs name value hcomp
+  rw [hvv] at hi
+  simp only [Except.ok.injEq] at hi
+  subst hi
+  have hc2 := hund a1 hca1
+  rw [← e1, ← e2] at hc2
+  obtain ⟨u2, hu2⟩ := recreate_total S (u1.withKids n.kids) _ _ (u1.withKids n.kids).marks hnt2 hc2
+  exact ⟨_, attrStep_applies S ty a m _ pos name v _ u2 hv' hn' hat2 hu2⟩
 
 /-- **exact undo of node-mark steps that displace at most one mark: the inverse applies and restores
     the document** (hypotheses of `nodeMark_undo_partial` minus "the inverse applies") -/
@@ -1777,57 +1813,97 @@ theorem docAttr_undo_exact (S : Schema) (t : TypeId) (a : Attrs) (m : Marks) (ki
   | ok a1 =>
     simp only [hc1, Except.map, Except.ok.injEq] at h1
     subst h1
-    simp only [Schema.invert, Node.attrs] at hi
-    cases hf : a.find? (·.1 == name) with
-    | none => simp [hf] at hi
-    | some q =>
-      obtain ⟨nm, v⟩ := q
-      simp only [hf, Except.ok.injEq] at hi
-      subst hi
-      have hlk : lk a name = some v := by simp [lk, hf]
-      have := computeAttrs_undo _ a a1 name value v ha hlk hc1
-      simp only [Schema.apply, this, Except.map, hm]
+    rw [invert_docAttr_eq] at hi
+    simp only [Node.attrs] at hi
+    obtain ⟨v, hv', hund⟩ := invert_attr_value _ a name value ha
+    rw [hv'] at hi
+    simp only [Except.ok.injEq] at hi
+    subst hi
+    have := hund a1 hc1
+    simp only [Schema.apply, this, Except.map, hm]
+
+/-- the fit guard holds whenever the inverse gets built at all … -/
+theorem invert_ok_of_fits (S : Schema) (d : Node) (f t gf gt : Nat) (sl : Slice) (ins : Nat) (b : Bool)
+    (h : gapFitsBack S d f t gf gt = true) : ∃ inv, S.invert (.replaceAround f t gf gt sl ins b) d = .ok inv := by
+  unfold gapFitsBack at h
+  simp only [Schema.invert]
+  cases h1 : d.slice f t with
+  | error e => simp [h1] at h
+  | ok old =>
+    cases h2 : d.slice gf gt with
+    | error e => simp [h1, h2] at h
+    | ok gap =>
+      cases h3 : old.removeBetween (gf - f) (gt - f) with
+      | error e => simp [h1, h2, h3] at h
+      | ok rem => simp only [h3]; exact ⟨_, rfl⟩
+
+/-- … and is implied by `gapClean` for a step that applied (`replaceAround_undo_structural` as a statement
+    about the guard) -/
+theorem gapFitsBack_of_clean_apply (S : Schema) (doc doc' : Node) (f t gf gt : Nat) (sl : Slice) (ins : Nat) (b : Bool)
+    (hd : S.checkNode doc = true) (hn : fnorm doc.kids = true)
+    (hwf : sl.wf = true) (hins : (ins : Int) ≤ sl.size) (hg : f ≤ gf ∧ gf ≤ gt ∧ gt ≤ t)
+    (h1 : S.apply (.replaceAround f t gf gt sl ins b) doc = .ok doc')
+    (hclean : ∀ old, doc.slice f t = .ok old →
+      gapClean old.content none (gf - f + old.openStart) (gt - f + old.openStart) = true) :
+    gapFitsBack S doc f t gf gt = true := by
+  obtain ⟨inv, hi⟩ := invert_ok_replaceAround S doc doc' f t gf gt sl ins b hn hg h1 hclean
+  obtain ⟨gap, inserted, hgap, hgo1, hgo2, _, _⟩ :=
+    apply_replaceAround_parts S doc doc' f t gf gt sl ins b h1
+  obtain ⟨_, htK, _⟩ := apply_replaceAround_toks S doc doc' f t gf gt sl ins b hwf hins hg h1
+  simp only [Schema.invert] at hi
+  cases hsl : doc.slice f t with
+  | error e => simp [hsl] at hi
+  | ok old =>
+    simp only [hsl] at hi
+    cases hrm : old.removeBetween (gf - f) (gt - f) with
+    | error e => simp [hrm] at hi
+    | ok rem =>
+      exact gapFitsBack_of_clean S doc f t gf gt old rem gap hd hn hg htK hsl hgap ⟨hgo1, hgo2⟩ hrm
+        (hclean old hsl)
 
 /-- valid and in normal form -/
 def FamilyInv (S : Schema) (d : Node) : Prop := S.checkNode d = true ∧ fnorm d.kids = true
 
 /-- **what a recorded step has to satisfy, by kind** (`d` the document it was applied to, `d'` its result).
-    Common to several kinds: `∃ inv, S.invert s d = .ok inv` — `Step.invert` does not raise (oracle
-    `invert-raises`); `s.undoAligned d'` — the pair-alignment proviso of the inverse.
+    Common to several kinds: `s.undoAligned d'` — the pair-alignment proviso of the inverse.  (That
+    `Step.invert` does not raise — oracle `invert-raises` — is no hypothesis: `invert_ok_of_apply`.)
     * replace: the slice is in normal form and a valid payload (`C01.PayloadValid`);
     * replace-around: slice in normal form and well formed, `insert ≤ slice.size`, ordered gap, valid
       payload; **`hst`** — when the structure flag is set, the two `content_between` checks of the inverse
       on `d'` find no content (the inverse inherits the flag; finding C04-structure-inverse; for a slice
       with only wrapper tokens beside the insertion point it holds: `replaceAround_hst_of_wrappers`,
-      Proofs/UndoStructure.lean); **`gapClean`** — the gap lies between complete children (what `lift`,
-      `wrap`, `set_node_markup` emit; otherwise finding C04-around-text-gap);
+      Proofs/UndoStructure.lean); **`gapFitsBack`** — the exact fit guard of `replaceAround_undo`: the gap,
+      removed from the old slice, can be put back by `insert_at` (finding C04-around-text-gap otherwise);
+      implied by `gapClean` — the gap lies between complete children, what `lift`, `wrap`,
+      `set_node_markup` emit (`gapFitsBack_of_clean_apply`); the Fitter also emits replace-around steps
+      whose gap is not clean but fits back (measured by the tie);
     * add-mark / remove-mark: the exact guard of the naive inverse (`addMarkUndoable` /
       `removeMarkUndoable`; the planners' steps satisfy it: `planGuard_family`);
-    * attr / doc-attr: every node carries its attributes as `compute_attrs` builds them (`attrsOk`);
+    * attr / doc-attr: every node carries its attributes as `compute_attrs` builds them (`attrsOk`); an
+      attribute the node's type does not declare is included (the step and its inverse are no-ops);
     * node marks: `attrsOk` and the three guards of `nodeMark_undo` (finding C04-node-mark-inverse). -/
 def FamilyGuard (S : Schema) (s : Step) (d d' : Node) : Prop :=
   match s with
   | .replace _ _ sl _ =>
-    fnorm sl.content = true ∧ C01.PayloadValid S d s ∧ (∃ inv, S.invert s d = .ok inv) ∧ s.undoAligned d'
+    fnorm sl.content = true ∧ C01.PayloadValid S d s ∧ s.undoAligned d'
   | .replaceAround f t gf gt sl ins b =>
     fnorm sl.content = true ∧ sl.wf = true ∧ (ins : Int) ≤ sl.size ∧ (f ≤ gf ∧ gf ≤ gt ∧ gt ≤ t) ∧
-    C01.PayloadValid S d s ∧ (∃ inv, S.invert s d = .ok inv) ∧
+    C01.PayloadValid S d s ∧
     (b = true → contentBetween d' f (f + ins) = some false ∧
       contentBetween d' (f + ins + (gt - gf)) (f + sl.size.toNat + (gt - gf)) = some false) ∧
-    (∀ old, d.slice f t = .ok old →
-      gapClean old.content none (gf - f + old.openStart) (gt - f + old.openStart) = true) ∧
+    gapFitsBack S d f t gf gt = true ∧
     s.undoAligned d'
   | .addMark f t m => addMarkUndoable S d f t m = true ∧ s.undoAligned d'
   | .removeMark f t m => removeMarkUndoable S d f t m = true ∧ s.undoAligned d'
-  | .attr _ _ _ => attrsOk S d = true ∧ (∃ inv, S.invert s d = .ok inv)
-  | .docAttr _ _ => attrsOk S d = true ∧ (∃ inv, S.invert s d = .ok inv)
+  | .attr _ _ _ => attrsOk S d = true
+  | .docAttr _ _ => attrsOk S d = true
   | .addNodeMark pos m =>
-    attrsOk S d = true ∧ (∃ inv, S.invert s d = .ok inv) ∧
+    attrsOk S d = true ∧
     (∀ n, d.nodeAt pos = .ok (some n) → n.marks.length ≤ (m.addToSet S n.marks).length) ∧
     (∀ n, d.nodeAt pos = .ok (some n) → ∀ x ∈ n.marks, ∀ y ∈ n.marks, x.ty = y.ty → x = y) ∧
     (∀ n, d.nodeAt pos = .ok (some n) → ∀ x ∈ n.marks, S.excludes m.ty x.ty = true → S.excludes x.ty m.ty = true)
   | .removeNodeMark pos _ =>
-    attrsOk S d = true ∧ (∃ inv, S.invert s d = .ok inv) ∧
+    attrsOk S d = true ∧
     (∀ n, d.nodeAt pos = .ok (some n) → ∀ x ∈ n.marks, ∀ y ∈ n.marks, x.ty = y.ty → x = y)
 
 /-- a step recorded by `add_mark` / `remove_mark` satisfies its `FamilyGuard`, given the same-type
@@ -1852,18 +1928,20 @@ theorem family_step (S : Schema) (htr : compatTransB S = true) (hts : TextLoop S
   obtain ⟨hv, hn⟩ := hI
   cases s with
   | replace f t sl b =>
-    obtain ⟨hsn, hp, ⟨inv, hi⟩, ha⟩ := hg
+    obtain ⟨hsn, hp, ha⟩ := hg
+    obtain ⟨inv, hi⟩ := invert_ok_replace S d d' f t sl b hn h
     exact ⟨⟨inv, hi, replace_undo_transitive S d d' f t sl b inv htr hv hn hsn h hi ha⟩,
       C01.apply_valid S (.replace f t sl b) d d' hv hp h, apply_norm S (.replace f t sl b) d d' hsn hn h⟩
   | replaceAround f t gf gt sl ins b =>
-    obtain ⟨hsn, hwf, hins, hgo, hp, ⟨inv, hi⟩, hst, hclean, ha1, ha2, ha3, ha4⟩ := hg
+    obtain ⟨hsn, hwf, hins, hgo, hp, hst, hfit, ha1, ha2, ha3, ha4⟩ := hg
+    obtain ⟨inv, hi⟩ := invert_ok_of_fits S d f t gf gt sl ins b hfit
     have hj : sidesCompatibleAround S d f t gf gt sl ins = true := by
       obtain ⟨gap, inserted, hgap, _, _, hinst, hfr1⟩ := apply_replaceAround_parts S d d' f t gf gt sl ins b h
       obtain ⟨ty, a, m, K, K', rfl, rfl, hr1⟩ := fromReplace_elem S d d' f t inserted hfr1
       have := sidesCompatible_of_trans S (compatTrans_of_B S htr) ty a m K K' f t inserted hn hr1
       simpa [sidesCompatibleAround, hgap, hinst] using this
-    exact ⟨⟨inv, hi, replaceAround_undo_structural S d d' f t gf gt sl ins b inv hv hn hsn hwf hins hgo h hi
-        hst hclean hj ⟨ha1, ha3, ha4, ha2⟩⟩,
+    exact ⟨⟨inv, hi, replaceAround_undo S d d' f t gf gt sl ins b inv hv hn hsn hwf hins hgo h hi
+        hst hfit hj ⟨ha1, ha3, ha4, ha2⟩⟩,
       C01.apply_valid S (.replaceAround f t gf gt sl ins b) d d' hv hp h,
       apply_norm S (.replaceAround f t gf gt sl ins b) d d' hsn hn h⟩
   | addMark f t m =>
@@ -1873,16 +1951,18 @@ theorem family_step (S : Schema) (htr : compatTransB S = true) (hts : TextLoop S
     have k := removeMark_keepsAll S d d' f t m h
     exact ⟨removeMark_stepUndoes S hts d d' f t m hv hn h hg.1 hg.2, k.valid hts.stable hv, k.norm hn⟩
   | attr pos name value =>
-    obtain ⟨ha, inv, hi⟩ := hg
+    have ha : attrsOk S d = true := hg
+    obtain ⟨inv, hi⟩ := attr_invert_ok S d d' pos name value h
     obtain ⟨n, u, _, hu, hr⟩ := apply_attr_parts S d d' pos name value h
     exact ⟨⟨inv, hi, attr_undo S d d' pos name value inv hn hv ha h hi⟩,
       C01.apply_valid S (.attr pos name value) d d' hv trivial h, nodeStep_norm S d d' n u pos _ _ hn hu hr⟩
   | docAttr name value =>
-    obtain ⟨ha, inv, hi⟩ := hg
+    have ha : attrsOk S d = true := hg
     cases d with
     | text _ _ => simp [Schema.apply] at h
     | leaf _ _ _ => simp [Schema.apply] at h
     | elem t a m kids =>
+      obtain ⟨inv, hi⟩ := docAttr_invert_ok S (.elem t a m kids) name value
       have hca : computeAttrs (S.nodeType t).attrs a = .ok a := by
         have := attrsOk_compute (n := .elem t a m kids) ha rfl
         simpa [Node.headTok, Tok.ty, Node.attrs] using this
@@ -1899,13 +1979,15 @@ theorem family_step (S : Schema) (htr : compatTransB S = true) (hts : TextLoop S
         subst h
         exact hn
   | addNodeMark pos m =>
-    obtain ⟨ha, ⟨inv, hi⟩, hdis, hty, hsym⟩ := hg
+    obtain ⟨ha, hdis, hty, hsym⟩ := hg
+    obtain ⟨inv, hi⟩ := invert_ok_addNodeMark S d d' pos m h
     obtain ⟨n, u, _, hu, hr⟩ := apply_addNodeMark_parts S d d' pos m h
     exact ⟨⟨inv, hi, nodeMark_undo S d d' pos m inv true hn hv ha h hi (fun n hn _ => hdis n hn) hty
         (fun n hn _ => hsym n hn)⟩,
       C01.apply_valid S (.addNodeMark pos m) d d' hv trivial h, nodeStep_norm S d d' n u pos _ _ hn hu hr⟩
   | removeNodeMark pos m =>
-    obtain ⟨ha, ⟨inv, hi⟩, hty⟩ := hg
+    obtain ⟨ha, hty⟩ := hg
+    obtain ⟨inv, hi⟩ := invert_ok_removeNodeMark S d d' pos m h
     obtain ⟨n, u, _, hu, hr⟩ := apply_removeNodeMark_parts S d d' pos m h
     exact ⟨⟨inv, hi, nodeMark_undo S d d' pos m inv false hn hv ha h hi (fun _ _ hc => by cases hc) hty
         (fun _ _ hc => by cases hc)⟩,
@@ -1942,6 +2024,613 @@ theorem family_history_undo_run (S : Schema) (htr : compatTransB S = true) (hts 
   obtain ⟨_, _, _, _, hrep⟩ := history_inv S doc sts
   exact (family_history_undo S htr hts doc tr.steps tr.docs tr.doc hd hn hrep hg).1
 
+/-- **`Step.invert` does not raise on a step that applied** (oracle `invert-raises`), normal-form document.
+    Unconditional for replace, range-mark and node-mark steps.  Replace-around: ordered gap, and the gap is
+    non-empty or its position is pair-aligned — an *empty* gap inside a surrogate pair is taken without
+    looking by `Node.slice(p, p)`, the forward step applies, and `Slice.remove_between` then has to cut the
+    text there and raises (`removeBetween_misaligned_fails`, Proofs/InvertOkAround.lean; on the real code
+    `ReplaceAroundStep(1, 3, 2, 2, Slice.empty, 0).invert(doc(p("😀")))` raises `UnicodeDecodeError`).
+    Attribute steps: `attrs.get(name)` never raises. -/
+theorem invert_ok_of_apply (S : Schema) (s : Step) (d d' : Node) (hn : fnorm d.kids = true)
+    (h : S.apply s d = .ok d')
+    (hs : match s with
+      | .replaceAround f t gf gt _ _ _ => (f ≤ gf ∧ gf ≤ gt ∧ gt ≤ t) ∧ (gf < gt ∨ alignedAt d.kids gf = true)
+      | _ => True) :
+    ∃ inv, S.invert s d = .ok inv := by
+  cases s with
+  | replace f t sl b => exact invert_ok_replace S d d' f t sl b hn h
+  | replaceAround f t gf gt sl ins b => exact invert_ok_replaceAround_full S d d' f t gf gt sl ins b hn hs.1 hs.2 h
+  | addMark f t m => exact ⟨_, rfl⟩
+  | removeMark f t m => exact ⟨_, rfl⟩
+  | addNodeMark pos m => exact invert_ok_addNodeMark S d d' pos m h
+  | removeNodeMark pos m => exact invert_ok_removeNodeMark S d d' pos m h
+  | attr pos name value => exact attr_invert_ok S d d' pos name value h
+  | docAttr name value => exact docAttr_invert_ok S d name value
+
+/-! ### Histories of *operations* (work package `wk-c04ops`)
+
+The property quantifies over sequences of transform operations.  `Op` / `Tr.runOp` / `Tr.runOps`
+(Proofs/OpHistory.lean) compose the step-emitting models of the operations with `Transform.step`.
+`opHistory_undo`: any list of operations that all went through is undone exactly, given per operation
+`OpResidual` — for the operations whose emitted steps are proved to satisfy `FamilyGuard` only what the
+proofs cannot supply (pair-alignment; the same-type guard of finding C04-same-type-mark-order; the
+shape of the node range), for the others `FamilyGuard` of the recorded steps (to be discharged by the
+`…Guard_family` lemmas below where they apply). -/
+
+/-- what an operation appended to the recorded history -/
+def appended (tr tr1 : Tr) : List (Step × Node) := tr1.hist.drop tr.hist.length
+
+/-- `NodeRange(resolve a, resolve b, depth)` is a node range as `block_range` builds it: `from ≤ to`, `to`
+    inside the node at the range's depth, both ends at child boundaries of that node -/
+def nodeRangeOk (d : Node) (a b depth : Nat) : Prop :=
+  ∃ rf rt, d.resolve a = some rf ∧ d.resolve b = some rt ∧ a ≤ b ∧ b ≤ rf.end_ depth ∧
+    (depth < rf.depth ∨ rf.textOffset = 0) ∧ (depth < rt.depth ∨ rt.textOffset = 0)
+
+/-- both ends of `NodeRange(resolve a, resolve b, depth)` are child boundaries of the node at `depth` -/
+def nodeRangeEnds (d : Node) (a b depth : Nat) : Prop :=
+  ∃ rf rt, d.resolve a = some rf ∧ d.resolve b = some rt ∧ a ≤ b ∧
+    (depth < rf.depth ∨ rf.textOffset = 0) ∧ (depth < rt.depth ∨ rt.textOffset = 0)
+
+theorem nodeRangeOk.ends {d : Node} {a b depth : Nat} (h : nodeRangeOk d a b depth) : nodeRangeEnds d a b depth := by
+  obtain ⟨rf, rt, hf, ht, hab, _, hfb, htb⟩ := h
+  exact ⟨rf, rt, hf, ht, hab, hfb, htb⟩
+
+/-- the node condition asked of `set_node_markup(pos, type, attrs, marks)`: a non-leaf node, retyped to a
+    non-leaf type (the complement: finding C04-leaf-retype and the Fitter path), canonical mark set -/
+def retypeNodeOk (S : Schema) (d : Node) (pos : Nat) (ty : Option TypeId) (marks : Option Marks) : Prop :=
+  ∀ node, d.nodeAt pos = .ok (some node) → node.isLeaf = false ∧
+    (S.nodeType (ty.getD (S.tyOf node))).isLeaf = false ∧
+    canonicalMarks S (setFrom (marksOr marks node)) = true
+
+/-- **what is asked of an operation of a run** (`tr` before, `tr1` after).
+    * `add_mark` / `remove_mark`: no inline node with content in the document (`flatInline`; no bundled schema
+      has one), the same-type guard (finding C04-same-type-mark-order) and pair-alignment per recorded step;
+    * `join`, `split`: pair-alignment;
+    * `lift`: both ends of the range at child boundaries of the node at its depth (`nodeRangeEnds`),
+      pair-alignment;
+    * `wrap`: a node range as `block_range` builds it (`nodeRangeOk`), no wrapper of a leaf type (with one
+      `Transform.wrap` goes through and its undo fails: an instance of finding C04-structure-inverse),
+      pair-alignment;
+    * `set_node_markup` of a non-leaf node to a non-leaf type (the complement is finding C04-leaf-retype
+      and the Fitter path) with a canonical mark set: pair-alignment;
+    * every other operation: `FamilyGuard` of the steps it recorded. -/
+def OpResidual (S : Schema) (op : Op) (tr tr1 : Tr) : Prop :=
+  match op with
+  | .lift a b depth _ => nodeRangeEnds tr.doc a b depth ∧
+      HistAll (fun s _ d' => s.undoAligned d') (appended tr tr1) tr1.doc
+  | .wrap a b depth ws => nodeRangeOk tr.doc a b depth ∧ (∀ w ∈ ws, (S.nodeType w.1).isLeaf = false) ∧
+      HistAll (fun s _ d' => s.undoAligned d') (appended tr tr1) tr1.doc
+  | .setNodeMarkup pos ty _ marks => retypeNodeOk S tr.doc pos ty marks ∧
+      HistAll (fun s _ d' => s.undoAligned d') (appended tr tr1) tr1.doc
+  | .mark _ => flatInline S tr.doc = true ∧
+      HistAll (fun s d d' => s.sameTypeGuard S d ∧ s.undoAligned d') (appended tr tr1) tr1.doc
+  | .join _ _ => HistAll (fun s _ d' => s.undoAligned d') (appended tr tr1) tr1.doc
+  | .split _ _ => HistAll (fun s _ d' => s.undoAligned d') (appended tr tr1) tr1.doc
+  | _ => HistAll (FamilyGuard S) (appended tr tr1) tr1.doc
+
+/-- the step `join` emits satisfies its `FamilyGuard`, given pair-alignment -/
+theorem joinGuard_family (S : Schema) (d d' : Node) (pos depth : Nat) (st : Step)
+    (hb : joinStep pos depth = .ok st) (hal : st.undoAligned d') : FamilyGuard S st d d' := by
+  unfold joinStep at hb
+  split at hb
+  · simp at hb
+  · simp only [Except.ok.injEq] at hb
+    subst hb
+    refine ⟨by simp [Slice.empty, fnorm, chainOk], ?_, hal⟩
+    show openValid S 0 0 [] = true
+    simp [openValid, rightOpenValid]
+
+/-- the step `split` emits (two copies of the nest of empty ancestors, open on both sides) satisfies its
+    `FamilyGuard` on a valid document, given pair-alignment -/
+theorem splitGuard_family (S : Schema) (d d' : Node) (pos depth : Nat) (st : Step)
+    (hv : S.checkNode d = true) (hb : splitStep d pos depth = .ok st) (h : S.apply st d = .ok d')
+    (hal : st.undoAligned d') : FamilyGuard S st d d' := by
+  have hdoc : d.isLeaf = false := by
+    unfold splitStep at hb
+    cases hr : d.resolve pos with
+    | none => simp [hr] at hb
+    | some r =>
+      cases hnn : splitNodes r depth with
+      | none => simp [hr, hnn] at hb
+      | some nodes =>
+        simp only [hr, hnn, Except.ok.injEq] at hb
+        subst hb
+        cases d with
+        | elem => rfl
+        | text s m =>
+          exfalso
+          unfold Schema.apply at h
+          simp only [Schema.fromReplace, Schema.replace] at h
+          repeat' split at h
+          all_goals simp at h
+        | leaf ty a m =>
+          exfalso
+          unfold Schema.apply at h
+          simp only [Schema.fromReplace, Schema.replace] at h
+          repeat' split at h
+          all_goals simp at h
+  obtain ⟨sl, rfl, hsn, hp⟩ := split_guard_parts S d pos depth st hv hdoc hb
+  exact ⟨hsn, hp, hal⟩
+
+/-- the step `lift` emits satisfies its `FamilyGuard` on a valid normal-form document when both ends of the
+    range are child boundaries of the node at the range's depth (`nodeRangeEnds`, as for every range
+    `block_range` builds): slice in normal form and well formed, ordered gap, valid payload, the structure
+    checks of the inverse (`hst`: the slice carries only the close tokens of the ancestors split before the
+    range and the open tokens of those split after it), and `gapClean` (between the step's start and the gap
+    the document has only open tokens, between the gap and the step's end only close tokens, so in the old
+    slice the gap is a run of whole children with nothing before it at its level).  Pair-alignment left. -/
+theorem liftGuard_family (S : Schema) (d d' : Node) (a b depth target : Nat) (st : Step)
+    (hv : S.checkNode d = true) (hn : fnorm d.kids = true) (hr : nodeRangeEnds d a b depth)
+    (hb : liftStep d a b depth target = .ok st) (h : S.apply st d = .ok d')
+    (hal : st.undoAligned d') : FamilyGuard S st d d' := by
+  obtain ⟨rf, rt, hf, ht, hab, hfb, htb⟩ := hr
+  obtain ⟨f, t, gf, gt, sl, ins, rfl, hsn, hwf, hins, hgo, hshape⟩ :=
+    lift_guard_parts S d d' a b depth target st hv hn hab hb h
+  have hp := lift_payload_valid S d d' a b depth target _ hv hab hb h f t gf gt sl ins true rfl
+  have hclean := lift_gapClean S d d' a b depth target _ rf rt hn hab hf ht hfb htb hb h f t gf gt sl ins true rfl
+  exact ⟨hsn, hwf, hins, hgo, hp,
+    fun _ => replaceAround_hst_of_wrappers S d d' f t gf gt sl ins true hn hsn hwf hins hgo h hshape,
+    gapFitsBack_of_clean_apply S d d' f t gf gt sl ins true hv hn hwf hins hgo h hclean, hal⟩
+
+/-- the step `wrap` emits satisfies its `FamilyGuard` on a valid normal-form document: node range as
+    `block_range` builds it, no wrapper of a leaf type; pair-alignment left.  (Payload: the wrappers with
+    the range in place are valid because `insert_at` accepted them; `hst`: the slice is a nest of open
+    tokens before the insertion point and close tokens after it; `gapClean`: the gap is the range.) -/
+theorem wrapGuard_family (S : Schema) (d d' : Node) (a b depth : Nat) (ws : List (TypeId × Attrs)) (st : Step)
+    (hv : S.checkNode d = true) (hn : fnorm d.kids = true) (hr : nodeRangeOk d a b depth)
+    (hl : ∀ w ∈ ws, (S.nodeType w.1).isLeaf = false)
+    (hb : wrapStep S d a b depth ws = .ok st) (h : S.apply st d = .ok d')
+    (hal : st.undoAligned d') : FamilyGuard S st d d' := by
+  obtain ⟨rf, rt, hf, ht, hab, hend, hfb, htb⟩ := hr
+  obtain ⟨f, t, gf, gt, sl, ins, rfl, hsn, hwf, hins, hgo, hp, hst, hclean⟩ :=
+    wrap_guard_parts S d d' a b depth ws st rf rt hv hn hf ht hab hend hfb htb hl hb h
+  exact ⟨hsn, hwf, hins, hgo, hp, fun _ => hst,
+    gapFitsBack_of_clean_apply S d d' f t gf gt sl ins true hv hn hwf hins hgo h hclean, hal⟩
+
+/-- the replace-around step `set_node_markup` and `set_block_type` emit for a non-leaf node (`retypeStep`:
+    keep the content as the gap, put the new empty node around it) satisfies its `FamilyGuard` on a valid
+    normal-form document when the new node is a non-leaf node with a canonical mark set (a leaf: finding
+    C04-leaf-retype); pair-alignment left -/
+theorem retypeGuard_family (S : Schema) (d d' node nn : Node) (pos : Nat)
+    (hv : S.checkNode d = true) (hn : fnorm d.kids = true)
+    (hna : d.nodeAt pos = .ok (some node)) (hnl : node.isLeaf = false)
+    (hnn : ∃ ty a m, nn = .elem ty a m [] ∧ canonicalMarks S m = true)
+    (h : S.apply (retypeStep pos (pos + node.size) nn) d = .ok d')
+    (hal : (retypeStep pos (pos + node.size) nn).undoAligned d') :
+    FamilyGuard S (retypeStep pos (pos + node.size) nn) d d' := by
+  obtain ⟨h1, h2, h3, h4, h5, h6, h7⟩ := retype_guard_parts S d d' node nn pos hv hn hna hnl hnn h
+  exact ⟨h1, h2, h3, h4, h5, fun _ => h6,
+    gapFitsBack_of_clean_apply S d d' _ _ _ _ _ 1 true hv hn h2 h3 h4 h h7, hal⟩
+
+/-- what `NodeType.create(attrs, None, marks)` gives for a non-leaf type -/
+theorem createNode_elem (S : Schema) (ty : TypeId) (attrs : Attrs) (ms : Marks) (nn : Node)
+    (hleaf : (S.nodeType ty).isLeaf = false) (h : S.createNode ty attrs ms = .ok nn) :
+    ∃ a, nn = .elem ty a (setFrom ms) [] := by
+  unfold Schema.createNode at h
+  simp only at h
+  split at h
+  · simp at h
+  · cases hc : computeAttrs (S.nodeType ty).attrs attrs with
+    | error e => simp [hc, Except.map] at h
+    | ok a =>
+      simp only [hc, Except.map, hleaf, Bool.false_eq_true, if_false, Except.ok.injEq] at h
+      exact ⟨a, h.symm⟩
+
+/-- **`set_node_markup`**: the step it records for a non-leaf node retyped to a non-leaf type -/
+theorem setNodeMarkupGuard_family (S : Schema) (d d' node nn : Node) (pos : Nat) (ty : TypeId) (attrs : Attrs)
+    (ms : Marks) (hv : S.checkNode d = true) (hn : fnorm d.kids = true)
+    (hna : d.nodeAt pos = .ok (some node)) (hnl : node.isLeaf = false)
+    (hleaf : (S.nodeType ty).isLeaf = false) (hms : canonicalMarks S (setFrom ms) = true)
+    (hc : S.createNode ty attrs ms = .ok nn)
+    (h : S.apply (retypeStep pos (pos + node.size) nn) d = .ok d')
+    (hal : (retypeStep pos (pos + node.size) nn).undoAligned d') :
+    FamilyGuard S (retypeStep pos (pos + node.size) nn) d d' := by
+  obtain ⟨a, rfl⟩ := createNode_elem S ty attrs ms nn hleaf hc
+  exact retypeGuard_family S d d' node _ pos hv hn hna hnl ⟨ty, a, _, rfl, hms⟩ h hal
+
+/-- **`set_block_type`**: the replace-around step it records for the textblock `node` at the (mapped) position
+    `s`, retyped to the (non-leaf) textblock type `ty` with the node's own marks.  (That the step ends at
+    `s + node.size` follows from its having applied: `retype_applied_end`.  "Applied" alone does not give the
+    node at `s`: `retypeStep 2 4 X()` applies to `doc(X("a"), X("b"))` — close token, open token — and joins
+    the two siblings around the new node; `set_block_type` reads the node before it builds the step.) -/
+theorem setBlockTypeGuard_family (S : Schema) (d d' node nn : Node) (s e : Nat) (ty : TypeId) (attrs : Attrs)
+    (hv : S.checkNode d = true) (hn : fnorm d.kids = true)
+    (hna : d.nodeAt s = .ok (some node)) (hnl : node.isLeaf = false)
+    (hleaf : (S.nodeType ty).isLeaf = false) (hms : canonicalMarks S node.marks = true)
+    (hc : S.createNode ty attrs node.marks = .ok nn)
+    (h : S.apply (retypeStep s e nn) d = .ok d') (hal : (retypeStep s e nn).undoAligned d') :
+    FamilyGuard S (retypeStep s e nn) d d' := by
+  obtain ⟨a, rfl⟩ := createNode_elem S ty attrs node.marks nn hleaf hc
+  have he : e = s + node.size := retype_applied_end S d d' node _ s e hna hnl rfl h
+  subst he
+  exact retypeGuard_family S d d' node _ s hv hn hna hnl
+    ⟨ty, a, _, rfl, by rw [setFrom_idem_of_canonical S _ hms]; exact hms⟩ h hal
+
+/-- **`clear_incompatible`** (called by `set_block_type` before it retypes): the `ReplaceStep`s it collects —
+    deleting a child the new type does not take, a space for a newline — satisfy `FamilyGuard`, given
+    pair-alignment (`kids` the children of the node as `clear_incompatible` walks them) -/
+theorem clearEditsGuard_family (S : Schema) (pty : TypeId) (kids : List Node) (q cur : Nat)
+    (hk : S.checkKids kids = true) (st : Step) (d d' : Node)
+    (hst : st ∈ ((clearEdits S pty kids q cur).map Edit.step).reverse) (hal : st.undoAligned d') :
+    FamilyGuard S st d d' := by
+  obtain ⟨a, b, c, rfl, hsn, hp⟩ := clearEdits_steps_payload S pty kids q cur hk st hst
+  exact ⟨hsn, hp, hal⟩
+
+/-- … and its `RemoveMarkStep`s (marks the new type does not allow, child by child) satisfy the planners'
+    guard `PlanGuard` on the documents they are applied to — hence `FamilyGuard` by `planGuard_family`, given
+    the same-type guard and pair-alignment — when every child carrying a forbidden mark is a text or a leaf
+    (children of a textblock without inline nodes that have content) -/
+theorem clearRm_planGuard (S : Schema) (hts : TextLoop S) (pty : TypeId) (d0 dEnd node : Node) (pos q : Nat)
+    (hv : S.checkNode d0 = true) (hna : d0.nodeAt pos = .ok (some node))
+    (hleaf : ∀ c ∈ node.kids, c.isLeaf = true ∨ badMarks S pty c.marks = [])
+    (h : S.applyAll (clearRm S pty node.kids q (pos + 1)) d0 = .ok dEnd) :
+    HistAll (PlanGuard S) (S.stepsHist (clearRm S pty node.kids q (pos + 1)) d0) dEnd ∧ S.checkNode dEnd = true := by
+  obtain ⟨hg, hv'⟩ := clearRm_steps_guard S hts.stable pty d0 dEnd node pos q hv hna hleaf h
+  exact ⟨histAll_mono (fun s d d' hr => .inl hr) _ _ hg, hv'⟩
+
+/-- **the executable guard of PM/OpGuard.lean implies `FamilyGuard`** (replace / replace-around steps; the
+    driver request `familyGuard` evaluates it on recorded steps of real histories) -/
+theorem structGuardB_family (S : Schema) (s : Step) (d d' : Node) (h : structGuardB S s d d' = true) :
+    FamilyGuard S s d d' := by
+  cases s with
+  | replace f t sl b =>
+    simp only [structGuardB, structGuardParts, Bool.and_eq_true, Bool.and_true, alignedAtB_eq, openValidB_eq] at h
+    obtain ⟨⟨hsn, hp⟩, ha1, ha2⟩ := h
+    exact ⟨hsn, hp, ha1, ha2⟩
+  | replaceAround f t gf gt sl ins b =>
+    simp only [structGuardB, structGuardParts, Bool.and_eq_true, decide_eq_true_eq, alignedAtB_eq,
+      Bool.or_eq_true, Bool.not_eq_true', beq_iff_eq] at h
+    obtain ⟨⟨⟨⟨⟨⟨⟨⟨⟨hsn, hwf⟩, hins⟩, h1⟩, h2⟩, h3⟩, hp⟩, hst⟩, hclean⟩, ⟨⟨ha1, ha2⟩, ha3⟩, ha4⟩ := h
+    refine ⟨hsn, hwf, hins, ⟨h1, h2, h3⟩, ?_, ?_, ?_, ha1, ha2, ha3, ha4⟩
+    · intro gap x hg hx
+      rw [hg] at hp
+      simp only [hx, openValidB_eq] at hp
+      exact hp
+    · intro hb
+      rcases hst with hb' | hst
+      · rw [hb] at hb'; cases hb'
+      · exact hst
+    · exact hclean
+  | addMark => simp [structGuardB, structGuardParts] at h
+  | removeMark => simp [structGuardB, structGuardParts] at h
+  | addNodeMark => simp [structGuardB, structGuardParts] at h
+  | removeNodeMark => simp [structGuardB, structGuardParts] at h
+  | attr => simp [structGuardB, structGuardParts] at h
+  | docAttr => simp [structGuardB, structGuardParts] at h
+
+theorem appended_eq {tr tr1 : Tr} {h2 : List (Step × Node)} (e : tr1.hist = tr.hist ++ h2) : appended tr tr1 = h2 := by
+  simp [appended, e]
+
+/-- `set_node_markup` under `retypeNodeOk`: it records the one retype step -/
+theorem setNodeMarkup_step (S : Schema) (tr tr1 : Tr) (pos : Nat) (ty : Option TypeId) (attrs : Attrs)
+    (marks : Option Marks) (hnode : retypeNodeOk S tr.doc pos ty marks)
+    (h : tr.runOp S (.setNodeMarkup pos ty attrs marks) = some tr1) :
+    ∃ node nn, tr.doc.nodeAt pos = .ok (some node) ∧ node.isLeaf = false ∧
+      (S.nodeType (ty.getD (S.tyOf node))).isLeaf = false ∧
+      canonicalMarks S (setFrom (marksOr marks node)) = true ∧
+      S.createNode (ty.getD (S.tyOf node)) attrs (marksOr marks node) = .ok nn ∧
+      tr.step S (retypeStep pos (pos + node.size) nn) = .ok tr1 := by
+  obtain ⟨st', hs, rfl⟩ := Tr.planned_some (run := fun st => st.setNodeMarkupF S pos ty attrs marks) h
+  unfold PSt.setNodeMarkupF at hs
+  simp only at hs
+  split at hs
+  · simp at hs
+  · simp at hs
+  · rename_i node hna
+    obtain ⟨hnl, hleaf, hms⟩ := hnode node hna
+    split at hs
+    · simp at hs
+    · rename_i nn hc
+      rw [if_neg (by simp [hnl])] at hs
+      split at hs
+      · simp at hs
+      · exact ⟨node, nn, hna, hnl, hleaf, hms, hc, PSt.step_tr' (liftP_ok hs)⟩
+
+/-- one operation: the steps it recorded satisfy `FamilyGuard` -/
+theorem op_family (S : Schema) (op : Op) (tr tr1 : Tr) (hlen : tr.steps.length = tr.docs.length)
+    (hI : FamilyInv S tr.doc) (h : tr.runOp S op = some tr1) (hres : OpResidual S op tr tr1) :
+    HistAll (FamilyGuard S) (appended tr tr1) tr1.doc := by
+  cases op with
+  | mark o =>
+    obtain ⟨hflat, hta⟩ := hres
+    obtain ⟨h2, e, _, _, _, g⟩ := Tr.markOp_hist S tr tr1 o hlen hI.1 hflat (toOption_some h)
+    rw [appended_eq e] at hta ⊢
+    exact histAll_mono (fun s d d' ⟨hp, ht, ha⟩ => planGuard_family S s d d' hp ht ha) h2 tr1.doc
+      (histAll_and h2 tr1.doc g hta)
+  | join pos depth =>
+    obtain ⟨st, hb, hs⟩ := Tr.built_some h
+    obtain ⟨e, _⟩ := Tr.step_hist hlen hs
+    simp only [OpResidual] at hres
+    rw [appended_eq e] at hres ⊢
+    exact ⟨joinGuard_family S _ _ pos depth st hb hres.1, trivial⟩
+  | step s => exact hres
+  | replace f t sl => exact hres
+  | addNodeMark pos m => exact hres
+  | removeNodeMark pos sel => exact hres
+  | setNodeAttribute pos name value => exact hres
+  | split pos depth =>
+    obtain ⟨st, hb, hs⟩ := Tr.built_some h
+    obtain ⟨e, ha⟩ := Tr.step_hist hlen hs
+    simp only [OpResidual] at hres
+    rw [appended_eq e] at hres ⊢
+    exact ⟨splitGuard_family S _ _ pos depth st hI.1 hb ha hres.1, trivial⟩
+  | lift a b depth target =>
+    obtain ⟨st, hb, hs⟩ := Tr.built_some h
+    obtain ⟨e, ha⟩ := Tr.step_hist hlen hs
+    obtain ⟨hr, hal⟩ := hres
+    rw [appended_eq e] at hal ⊢
+    exact ⟨liftGuard_family S _ _ a b depth target st hI.1 hI.2 hr hb ha hal.1, trivial⟩
+  | wrap a b depth ws =>
+    obtain ⟨st, hb, hs⟩ := Tr.built_some h
+    obtain ⟨e, ha⟩ := Tr.step_hist hlen hs
+    obtain ⟨hr, hl, hal⟩ := hres
+    rw [appended_eq e] at hal ⊢
+    exact ⟨wrapGuard_family S _ _ a b depth ws st hI.1 hI.2 hr hl hb ha hal.1, trivial⟩
+  | setNodeMarkup pos ty attrs marks =>
+    obtain ⟨hnode, hal⟩ := hres
+    obtain ⟨node, nn, hna, hnl, hleaf, hms, hc, hs⟩ := setNodeMarkup_step S tr tr1 pos ty attrs marks hnode h
+    obtain ⟨e, ha⟩ := Tr.step_hist hlen hs
+    rw [appended_eq e] at hal ⊢
+    exact ⟨setNodeMarkupGuard_family S _ _ node nn pos _ attrs _ hI.1 hI.2 hna hnl hleaf hms hc ha hal.1,
+      trivial⟩
+  | setBlockType f t ty attrs => exact hres
+
+/-- a run of operations: what it appended replays and satisfies `FamilyGuard` -/
+theorem runOps_family (S : Schema) (htr : compatTransB S = true) (hts : TextLoop S) :
+    ∀ (ops : List Op) (tr tr' : Tr), tr.steps.length = tr.docs.length → FamilyInv S tr.doc →
+    tr.runOps S ops = some tr' → OpsAll S (OpResidual S) tr ops →
+    ∃ h2, tr'.hist = tr.hist ++ h2 ∧ tr'.steps.length = tr'.docs.length ∧
+      histNext h2 tr'.doc = tr.doc ∧ ReplayChain S h2 tr'.doc ∧ HistAll (FamilyGuard S) h2 tr'.doc
+  | [], tr, tr', hlen, _, h, _ => by
+    simp only [Tr.runOps, Option.some.injEq] at h
+    subst h
+    exact ⟨[], by simp, hlen, rfl, trivial, trivial⟩
+  | op :: ops, tr, tr', hlen, hI, h, hres => by
+    simp only [Tr.runOps] at h
+    cases h1 : tr.runOp S op with
+    | none => rw [h1] at h; simp at h
+    | some tr1 =>
+      rw [h1] at h
+      simp only [OpsAll, h1] at hres
+      obtain ⟨ha, e1, l1, n1, r1⟩ := (Tr.runOp_grows op h1).hist hlen
+      have g1 := op_family S op tr tr1 hlen hI h1 hres.1
+      rw [appended_eq e1] at g1
+      have hI1 : FamilyInv S tr1.doc :=
+        (chain_of_invariant S (FamilyInv S) (FamilyGuard S) (family_step S htr hts) ha tr1.doc
+          (by rw [n1]; exact hI) r1 g1).2
+      obtain ⟨hb, e2, l2, n2, r2, g2⟩ := runOps_family S htr hts ops tr1 tr' l1 hI1 h hres.2
+      refine ⟨ha ++ hb, by rw [e2, e1, List.append_assoc], l2, ?_, ?_, ?_⟩
+      · rw [histNext_append, n2, n1]
+      · exact (histAll_append _ ha hb tr'.doc).mpr ⟨by rw [n2]; exact r1, r2⟩
+      · exact (histAll_append _ ha hb tr'.doc).mpr ⟨by rw [n2]; exact g1, g2⟩
+
+/-- **exact undo of a history built through the transform API.**  Schema with transitive
+    `compatible_content` (`compatTransB`) and `TextLoop`; `doc` valid and in normal form; `ops` any list of
+    modelled operations (replace, mark operations, node marks, attributes, split, join, lift, wrap, set node
+    markup, set block type, raw steps) that all went through; `OpResidual` of every operation.  Then the
+    inverted recorded steps applied in reverse order to the final document restore `doc`, and the final
+    document is again valid and in normal form. -/
+theorem opHistory_undo (S : Schema) (htr : compatTransB S = true) (hts : TextLoop S)
+    (doc : Node) (ops : List Op) (tr' : Tr) (hd : S.checkNode doc = true) (hn : fnorm doc.kids = true)
+    (h : (Tr.init doc).runOps S ops = some tr')
+    (hres : OpsAll S (OpResidual S) (Tr.init doc) ops) :
+    tr'.undo S = .ok doc ∧ FamilyInv S tr'.doc := by
+  obtain ⟨h2, e, _, n, r, g⟩ := runOps_family S htr hts ops (Tr.init doc) tr' rfl ⟨hd, hn⟩ h hres
+  have e' : tr'.hist = h2 := by rw [e]; simp [Tr.hist, Tr.init]
+  obtain ⟨hc, hfin⟩ := chain_of_invariant S (FamilyInv S) (FamilyGuard S) (family_step S htr hts) h2 tr'.doc
+    (by rw [n]; exact ⟨hd, hn⟩) r g
+  refine ⟨?_, hfin⟩
+  show S.unwind tr'.hist tr'.doc = .ok doc
+  rw [e', unwind_of_chain S h2 tr'.doc hc, n]
+  rfl
+
+/-- pair-alignment is automatic where the new document has no text outside the Basic Multilingual Plane -/
+theorem undoAligned_of_bmp (s : Step) (d' : Node) (hb : bmpDoc d' = true) : s.undoAligned d' := by
+  have ha := fun p => alignedAt_of_bmp d'.kids p hb
+  cases s <;> simp [Step.undoAligned, ha]
+
+theorem histAll_undoAligned_of_bmp (hist : List (Step × Node)) (fin : Node)
+    (h : HistAll (fun _ _ d' => bmpDoc d' = true) hist fin) : HistAll (fun s _ d' => s.undoAligned d') hist fin :=
+  histAll_mono (fun s _ d' hb => undoAligned_of_bmp s d' hb) hist fin h
+
+/-- a step that keeps the text and leaf tokens keeps "no text outside the Basic Multilingual Plane" -/
+theorem bmp_of_keeps_content (d d' : Node)
+    (h : (ftoks d'.kids).filter Tok.isContent = (ftoks d.kids).filter Tok.isContent)
+    (hb : bmpDoc d = true) : bmpDoc d' = true := by
+  unfold bmpDoc at hb ⊢
+  rw [List.all_eq_true] at hb ⊢
+  intro x hx
+  cases x with
+  | op t a m => rfl
+  | cl => rfl
+  | leaf t a m => rfl
+  | unit c m =>
+    have : Tok.unit c m ∈ (ftoks d'.kids).filter Tok.isContent := List.mem_filter.mpr ⟨hx, rfl⟩
+    rw [h] at this
+    exact hb _ (List.mem_filter.mp this).1
+
+/-- the four structural edits and `set_node_markup` -/
+def structuralOp : Op → Bool
+  | .setNodeMarkup .. => true
+  | .split .. => true
+  | .join .. => true
+  | .lift .. => true
+  | .wrap .. => true
+  | _ => false
+
+/-- what is asked of a structural edit: the node-range shape of `lift` / `wrap`, no leaf wrapper -/
+def StructResidual (S : Schema) (op : Op) (tr _tr1 : Tr) : Prop :=
+  match op with
+  | .lift a b depth _ => nodeRangeEnds tr.doc a b depth
+  | .wrap a b depth ws => nodeRangeOk tr.doc a b depth ∧ (∀ w ∈ ws, (S.nodeType w.1).isLeaf = false)
+  | .setNodeMarkup pos ty _ marks => retypeNodeOk S tr.doc pos ty marks
+  | _ => True
+
+/-- the retype step is a structure-only step: it keeps the text and leaf tokens -/
+theorem retype_keeps_content (S : Schema) (d d' node : Node) (pos : Nat) (ty : TypeId) (a : Attrs) (m : Marks)
+    (hna : d.nodeAt pos = .ok (some node)) (hnl : node.isLeaf = false)
+    (h : S.apply (retypeStep pos (pos + node.size) (.elem ty a m [])) d = .ok d') :
+    (ftoks d'.kids).filter Tok.isContent = (ftoks d.kids).filter Tok.isContent := by
+  have _ := hna
+  have hsz : 2 ≤ node.size := by
+    cases node with
+    | elem t a' m' k => simp [Node.size]
+    | text s' m' => simp [Node.isLeaf] at hnl
+    | leaf t a' m' => simp [Node.isLeaf] at hnl
+  refine C12.structural_keeps_content S d d' _ ?_ ?_ h
+  · simp only [retypeStep, isStructuralAt, isStructural, Bool.true_and, Bool.and_eq_true, decide_eq_true_eq]
+    refine ⟨?_, ⟨by omega, by omega⟩, by omega⟩
+    simp [sliceToks', ftoks, Node.toks, structuralOnly, Tok.isContent, fsize, Node.size]
+  · intro f t gf gt sl i b e
+    simp only [retypeStep, Step.replaceAround.injEq] at e
+    obtain ⟨_, _, _, _, rfl, rfl, _⟩ := e
+    simp [Slice.wf, Slice.size, fsize, Node.size]
+
+/-- a structural edit that went through: its step, and the new document keeps the text and leaf tokens -/
+theorem structOp_step (S : Schema) (op : Op) (tr tr1 : Tr) (hop : structuralOp op = true)
+    (hlen : tr.steps.length = tr.docs.length) (h : tr.runOp S op = some tr1)
+    (hres : StructResidual S op tr tr1) :
+    ∃ st, tr1.hist = tr.hist ++ [(st, tr.doc)] ∧ S.apply st tr.doc = .ok tr1.doc ∧
+      (ftoks tr1.doc.kids).filter Tok.isContent = (ftoks tr.doc.kids).filter Tok.isContent := by
+  cases op with
+  | split pos depth =>
+    obtain ⟨st, hb, hs⟩ := Tr.built_some h
+    obtain ⟨e, ha⟩ := Tr.step_hist hlen hs
+    exact ⟨st, e, ha, C12.split_keeps_content S _ _ pos depth st hb ha⟩
+  | join pos depth =>
+    obtain ⟨st, hb, hs⟩ := Tr.built_some h
+    obtain ⟨e, ha⟩ := Tr.step_hist hlen hs
+    exact ⟨st, e, ha, C12.join_keeps_content S _ _ pos depth st hb ha⟩
+  | lift a b depth target =>
+    obtain ⟨st, hb, hs⟩ := Tr.built_some h
+    obtain ⟨e, ha⟩ := Tr.step_hist hlen hs
+    obtain ⟨_, _, _, _, hab, _, _⟩ := hres
+    exact ⟨st, e, ha, C12.lift_keeps_content S _ _ a b depth target st hab hb ha⟩
+  | wrap a b depth ws =>
+    obtain ⟨st, hb, hs⟩ := Tr.built_some h
+    obtain ⟨e, ha⟩ := Tr.step_hist hlen hs
+    obtain ⟨⟨_, _, _, _, hab, _, _, _⟩, hl⟩ := hres
+    exact ⟨st, e, ha, C12.wrap_keeps_content S _ _ a b depth ws st hab hl hb ha⟩
+  | setNodeMarkup pos ty attrs marks =>
+    obtain ⟨node, nn, hna, hnl, hleaf, _, hc, hs⟩ := setNodeMarkup_step S tr tr1 pos ty attrs marks hres h
+    obtain ⟨e, ha⟩ := Tr.step_hist hlen hs
+    obtain ⟨a, rfl⟩ := createNode_elem S _ attrs _ nn hleaf hc
+    exact ⟨_, e, ha, retype_keeps_content S _ _ node pos _ a _ hna hnl ha⟩
+  | step => simp [structuralOp] at hop
+  | replace => simp [structuralOp] at hop
+  | mark => simp [structuralOp] at hop
+  | addNodeMark => simp [structuralOp] at hop
+  | removeNodeMark => simp [structuralOp] at hop
+  | setNodeAttribute => simp [structuralOp] at hop
+  | setBlockType => simp [structuralOp] at hop
+
+/-- on a document without text outside the BMP, a run of structural edits meets `OpResidual` -/
+theorem structOps_residual (S : Schema) (htr : compatTransB S = true) (hts : TextLoop S) :
+    ∀ (ops : List Op) (tr : Tr), tr.steps.length = tr.docs.length → FamilyInv S tr.doc → bmpDoc tr.doc = true →
+    (∀ op ∈ ops, structuralOp op = true) → OpsAll S (StructResidual S) tr ops → OpsAll S (OpResidual S) tr ops
+  | [], _, _, _, _, _, _ => trivial
+  | op :: ops, tr, hlen, hI, hb, hall, hres => by
+    simp only [OpsAll] at hres ⊢
+    cases h1 : tr.runOp S op with
+    | none => trivial
+    | some tr1 =>
+      simp only [h1] at hres ⊢
+      have hop := hall op (List.mem_cons_self ..)
+      obtain ⟨st, e, ha, hk⟩ := structOp_step S op tr tr1 hop hlen h1 hres.1
+      have hb1 : bmpDoc tr1.doc = true := bmp_of_keeps_content _ _ hk hb
+      have hal : HistAll (fun s _ d' => s.undoAligned d') (appended tr tr1) tr1.doc := by
+        rw [appended_eq e]
+        exact ⟨undoAligned_of_bmp st tr1.doc hb1, trivial⟩
+      have hr1 : OpResidual S op tr tr1 := by
+        cases op with
+        | split pos depth => exact hal
+        | join pos depth => exact hal
+        | lift a b depth target => exact ⟨hres.1, hal⟩
+        | wrap a b depth ws => exact ⟨hres.1.1, hres.1.2, hal⟩
+        | setNodeMarkup pos ty attrs marks => exact ⟨hres.1, hal⟩
+        | step => simp [structuralOp] at hop
+        | replace => simp [structuralOp] at hop
+        | mark => simp [structuralOp] at hop
+        | addNodeMark => simp [structuralOp] at hop
+        | removeNodeMark => simp [structuralOp] at hop
+        | setNodeAttribute => simp [structuralOp] at hop
+        | setBlockType => simp [structuralOp] at hop
+      refine ⟨hr1, ?_⟩
+      obtain ⟨h2, e1, l1, n1, r1⟩ := (Tr.runOp_grows op h1).hist hlen
+      have g1 := op_family S op tr tr1 hlen hI h1 hr1
+      rw [appended_eq e1] at g1
+      have hI1 : FamilyInv S tr1.doc :=
+        (chain_of_invariant S (FamilyInv S) (FamilyGuard S) (family_step S htr hts) h2 tr1.doc
+          (by rw [n1]; exact hI) r1 g1).2
+      exact structOps_residual S htr hts ops tr1 l1 hI1 hb1
+        (fun o ho => hall o (List.mem_cons_of_mem _ ho)) hres.2
+
+/-- **a history of structural edits (`split`, `join`, `lift`, `wrap`, `set_node_markup`) is undone exactly**:
+    schema with transitive `compatible_content` and `TextLoop`; `doc` valid, in normal form, no text outside
+    the Basic Multilingual Plane; the ranges of `lift` / `wrap` are node ranges as `block_range` builds them,
+    no wrapper of a leaf type; `set_node_markup` retypes a non-leaf node to a non-leaf type with a canonical
+    mark set.  No hypothesis on the recorded steps is left. -/
+theorem structHistory_undo_bmp (S : Schema) (htr : compatTransB S = true) (hts : TextLoop S)
+    (doc : Node) (ops : List Op) (tr' : Tr) (hd : S.checkNode doc = true) (hn : fnorm doc.kids = true)
+    (hb : bmpDoc doc = true) (hall : ∀ op ∈ ops, structuralOp op = true)
+    (h : (Tr.init doc).runOps S ops = some tr')
+    (hres : OpsAll S (StructResidual S) (Tr.init doc) ops) :
+    tr'.undo S = .ok doc ∧ FamilyInv S tr'.doc :=
+  opHistory_undo S htr hts doc ops tr' hd hn h
+    (structOps_residual S htr hts ops (Tr.init doc) rfl ⟨hd, hn⟩ hb hall hres)
+
+/-! Non-vacuity of `opHistory_undo`: on `doc(p("ab"))` (schema `wrapS` above) the history
+    "wrap the paragraph in a quote" meets every hypothesis; the recorded step is the structure-flagged
+    replace-around step of `Transform.wrap`. -/
+section OpExample
+private theorem w_wrapStep : wrapStep wrapS wDoc 1 3 0 [(2, [])] = .ok (.replaceAround 0 4 0 4 wSl 1 true) := by
+  rfl
+
+private theorem w_fwd_struct : wrapS.apply (.replaceAround 0 4 0 4 wSl 1 true) wDoc = .ok wDoc' := by
+  have hv : wrapS.validContent 0 [Node.elem 2 [] [] [Node.elem 1 [] [] [Node.text [97, 98] []]]] = true := by
+    decide
+  have hc1 : contentBetween wDoc 0 0 = some false := by decide
+  have hc2 : contentBetween wDoc 4 4 = some false := by decide
+  simp only [Schema.apply, hc1, hc2, w_slice, w_ins]
+  simp [Schema.fromReplace, Schema.replace, wDoc, wDoc', replaceKids, inRange, depthAt, Slice.wf, spineL,
+    spineR, outer, atLevel, fcut, fappend, hv, Except.map]
+
+private theorem wrapS_loop : TextLoop wrapS := by
+  intro t q q1 h
+  match t, q with
+  | 0, 0 => simp [Schema.dfa, Schema.nodeType, wrapS, wnt, Dfa.matchType, Dfa.edgesOf] at h
+  | 1, 0 =>
+    have : q1 = 0 := by
+      simp [Schema.dfa, Schema.nodeType, wrapS, wnt, Dfa.matchType, Dfa.edgesOf] at h; omega
+    subst this; exact h
+  | 2, 0 => simp [Schema.dfa, Schema.nodeType, wrapS, wnt, Dfa.matchType, Dfa.edgesOf] at h
+  | 3, 0 => simp [Schema.dfa, Schema.nodeType, wrapS, wnt, Dfa.matchType, Dfa.edgesOf] at h
+  | 0, q + 1 => simp [Schema.dfa, Schema.nodeType, wrapS, wnt, Dfa.matchType, Dfa.edgesOf] at h
+  | 1, q + 1 => simp [Schema.dfa, Schema.nodeType, wrapS, wnt, Dfa.matchType, Dfa.edgesOf] at h
+  | 2, q + 1 => simp [Schema.dfa, Schema.nodeType, wrapS, wnt, Dfa.matchType, Dfa.edgesOf] at h
+  | 3, q + 1 => simp [Schema.dfa, Schema.nodeType, wrapS, wnt, Dfa.matchType, Dfa.edgesOf] at h
+  | t + 4, q =>
+    have : (wrapS.dfa (t + 4)) = #[] := by
+      simp [Schema.dfa, Schema.nodeType, wrapS]
+      rfl
+    rw [this] at h
+    simp [Dfa.matchType, Dfa.edgesOf] at h
+
+private def wTr : Tr := (Tr.init wDoc).addStep (.replaceAround 0 4 0 4 wSl 1 true) wDoc'
+
+private theorem w_run : (Tr.init wDoc).runOps wrapS [.wrap 1 3 0 [(2, [])]] = some wTr := by
+  simp only [Tr.runOps, Tr.runOp, Tr.init, w_wrapStep, Tr.built, Tr.step, w_fwd_struct, Except.toOption]
+  rfl
+
+example : wTr.undo wrapS = .ok wDoc := by
+  refine (opHistory_undo wrapS (by decide) wrapS_loop wDoc [.wrap 1 3 0 [(2, [])]] wTr (by decide) ?_ w_run ?_).1
+  · simp [wDoc, Node.kids, fnorm, fnormKids, Node.norm, chainOk]
+  · simp only [OpsAll, Tr.runOp, Tr.init, w_wrapStep, Tr.built, Tr.step, w_fwd_struct,
+      Except.toOption, OpResidual, and_true]
+    refine ⟨⟨_, _, rfl, rfl, by decide, by decide, by decide, by decide⟩, by decide, ?_, trivial⟩
+    exact undoAligned_of_bmp _ _ (by decide)
+end OpExample
+
 /-! Non-vacuity of `family_history_undo`: the one-step history "replace 2 … 3 by `x`" on
     `doc(p("ab"), p("c"))` (`tiny_fwd`, `tiny_inv` above) meets every hypothesis. -/
 section FamilyExample
@@ -1969,7 +2658,7 @@ example : tinyS.unwind ([Step.replace 2 3 tinySl false].zip [tinyDoc]) tinyDoc' 
     (by decide) ?_ ?_ ?_).1
   · simp [tinyDoc, Node.kids, fnorm, fnormKids, Node.norm, chainOk, adjOk]
   · simp [replay, tiny_fwd]
-  · refine ⟨⟨?_, ?_, ⟨_, tiny_inv⟩, ?_⟩, trivial⟩
+  · refine ⟨⟨?_, ?_, ?_⟩, trivial⟩
     · simp [tinySl, fnorm, fnormKids, Node.norm, chainOk]
     · show openValid tinyS tinySl.openStart tinySl.openEnd tinySl.content = true
       simp [tinySl, openValid, rightOpenValid, Schema.checkKids, Schema.checkNode]
@@ -1977,5 +2666,27 @@ example : tinyS.unwind ([Step.replace 2 3 tinySl false].zip [tinyDoc]) tinyDoc' 
     · simp [Step.undoAligned, histNext, tinyDoc', Node.kids, tinySl, alignedAt, splitOk, isHigh, isLow,
         Slice.size, fsize, Node.size]
 end FamilyExample
+
+/-- **exact undo of a replace-around step the Fitter emitted**: the structural hypotheses of
+    `replaceAround_undo_partial` (`sl.wf`, `insert ≤ slice.size`, range and gap in order) are discharged
+    for every replace-around step `replace_step` answers with (C11 `fit_emits_wf`: schema guards, valid
+    document, well-formed request slice, the unplaced slice staying well-formed over the Fitter's run —
+    all decidable).  What remains assumed is what the undo theorem assumes of any step: normal forms and
+    that the three applications succeed.  (Payload validity — `openValid` of the emitted slice — is not
+    needed here and not yet proved for Fitter-emitted steps: C11, `fit_emits_valid_payload`.) -/
+theorem fitter_replaceAround_undo_partial (S : Schema) (hdet : PM.C11.detB S = true) (hfill : S.fillersOKB = true)
+    (hwrap : S.wrapOKB = true) (hlab : S.labelsOKB = true) (doc doc' doc'' : Node) (f t : Nat) (req : Slice)
+    (hv : C01.Valid S doc) (hattrs : S.nodeAttrsOK doc = true) (hreq : req.wf = true) (hft : f ≤ t)
+    (hrun : unplacedWfRun S doc f t req = true) (F T G1 G2 : Nat) (sl : Slice) (ins : Nat) (b : Bool)
+    (hemit : replaceStep S doc f t req = .ok (some (.replaceAround F T G1 G2 sl ins b)))
+    (inv : Step) (hn : fnorm doc.kids = true) (hsn : fnorm sl.content = true)
+    (h1 : S.apply (.replaceAround F T G1 G2 sl ins b) doc = .ok doc')
+    (hi : S.invert (.replaceAround F T G1 G2 sl ins b) doc = .ok inv)
+    (h2 : S.apply inv doc' = .ok doc'') : doc'' = doc := by
+  obtain ⟨_, hs⟩ := PM.C11.fit_emits_wf S hdet hfill hwrap hlab doc f t req hv hattrs hreq hft hrun _ hemit
+  have hsh := hs F T G1 G2 sl ins b rfl
+  simp only [aroundShape, Bool.and_eq_true, decide_eq_true_eq] at hsh
+  obtain ⟨⟨⟨⟨hwf, hins⟩, g1⟩, g2⟩, g3⟩ := hsh
+  exact replaceAround_undo_partial S doc doc' doc'' F T G1 G2 sl ins b inv hn hsn hwf hins ⟨g1, g2, g3⟩ h1 hi h2
 
 end PM.C04
